@@ -299,6 +299,22 @@ def float_from_words(words, path):
 
 
 class _check_value_base:
+    def _check_bound_types(self, value_min, value_max):
+        # a bound that is not a number (.type = int(value_min=int), value_max="a"),
+        # or that the type cannot write (int(value_max=float("nan"))), would only
+        # fail later, as a TypeError / ValueError from printing or comparing
+        for name, bound in (("value_min", value_min), ("value_max", value_max)):
+            if bound is None:
+                continue
+            if not isinstance(bound, (int, float)):
+                raise TypeError(
+                    "%s must be a number, not %s" % (name, type(bound).__name__)
+                )
+            try:
+                self._value_as_str(value=bound)
+            except (ValueError, OverflowError) as e:
+                raise TypeError("%s=%r: %s" % (name, bound, e))
+
     def _check_value(self, value, path_producer, words=None):
         def where_str():
             if words is None:
@@ -329,19 +345,9 @@ class _check_value_base:
             )
 
 
-def _check_bound_types(value_min, value_max):
-    # a bound that is not a number (.type = int(value_min=int), value_max="a") would
-    # only fail later, as a TypeError from printing, formatting or comparing
-    for name, bound in (("value_min", value_min), ("value_max", value_max)):
-        if bound is not None and not isinstance(bound, (int, float)):
-            raise TypeError(
-                "%s must be a number, not %s" % (name, type(bound).__name__)
-            )
-
-
 class number_converters_base(_check_value_base):
     def __init__(self, value_min=None, value_max=None, allow_none=True):
-        _check_bound_types(value_min, value_max)
+        self._check_bound_types(value_min, value_max)
         if value_min is not None and value_max is not None:
             assert value_min <= value_max
         self.value_min = value_min
@@ -429,7 +435,7 @@ class numbers_converters_base(_check_value_base):
         allow_none_elements=False,
         allow_auto_elements=False,
     ):
-        _check_bound_types(value_min, value_max)
+        self._check_bound_types(value_min, value_max)
         assert size is None or (size_min is None and size_max is None)
         if size is not None:
             assert size > 0
